@@ -81,7 +81,9 @@ REBASED = {
 out_root = "/verif/seeded"
 os.makedirs(out_root, exist_ok=True)
 rows = []
-for root, variants in (("/tmp/seeds", ("a", "b")), ("/tmp/seeds2", ("c", "d")), ("/tmp/seeds3", ("e", "f")), ("/tmp/seeds4", ("g", "h")), ("/tmp/seeds5", ("i", "j"))):
+for root, variants in (("/tmp/seeds", ("a", "b")), ("/tmp/seeds2", ("c", "d")), ("/tmp/seeds3", ("e", "f")), ("/tmp/seeds4", ("g", "h")), ("/tmp/seeds5", ("i", "j")), ("/tmp/seeds6", ("k", "l"))):
+  if not os.path.isdir(root):
+    continue
   for pid in sorted(os.listdir(root)):
     if not pid.startswith("C"):
         continue
@@ -111,7 +113,7 @@ for root, variants in (("/tmp/seeds", ("a", "b")), ("/tmp/seeds2", ("c", "d")), 
         m = {"id": key, "property": pid, "breaks": meta.get("summary"), "needs_to_manifest": meta.get("needs_to_manifest"),
              "files_changed": meta.get("files_changed"), "author": "independent sub-agent given only the property text and a scratch worktree",
              "author_verification": meta.get("verified"),
-             "confirmed_by_me": {"base_commit": "hdc-algo HEAD at evaluation time (pinned tree + fix: commits; 2de2409 for round 1 a/b, 26e16c3 for round 2 c/d, e8a493c for rounds 3 e/f and 4 g/h, 2da843a for round 5 i/j)", "patch_applies": True,
+             "confirmed_by_me": {"base_commit": "hdc-algo HEAD at evaluation time (pinned tree + fix: commits; 2de2409 for round 1 a/b, 26e16c3 for round 2 c/d, e8a493c for rounds 3 e/f and 4 g/h, 2da843a for round 5 i/j, 0318712 for round 6 k/l)", "patch_applies": True,
                                  "existing_tests_with_patch": tests, "demo_exit_code_clean_tree": 0, "demo_exit_code_patched_tree": int(ev["demo_exit_patched"]),
                                  "how": "tools/seed_eval.sh %s %s (scratch copy of /repo HEAD, git apply, pytest, demo on both trees, ./check %s --tier quick with HDC_REPO=<scratch>)" % (pid, v, pid)},
              "check_result_first_evaluation": FIRST.get(key, "caught"), "check_result_now": ev["check"],
